@@ -1760,8 +1760,14 @@ def derived_sequences(case, out, route, fresh, builder, op, x, mask):
                     return pick(made['i'].mv(xa))
 
                 route(f'{p}/I1-derived-inside-applied-inside', i1)
-                route(f'{p}/J1-derived-in-jit-traced-inside', lambda: fj(x))
-            route(f'{p}/J2-derived-in-jit-called-outside', lambda: fj(x))
+                # copy.deepcopy INSIDE a trace turns the closed-over concrete arrays into tracers: a boolean mask then is
+                # no longer concrete (NonConcreteBooleanIndexError) - an artefact of this derivation, not of furax
+                # (false alarm of the thorough tier on index-bool-mask / pack*); such operators are deep-copied eagerly only
+                in_jit_ok = not (mask and d == 'deepcopy')
+                if in_jit_ok:
+                    route(f'{p}/J1-derived-in-jit-traced-inside', lambda: fj(x))
+            if in_jit_ok:
+                route(f'{p}/J2-derived-in-jit-called-outside', lambda: fj(x))
             if not holders and not thorough:
                 continue
             if 'i' in made:
@@ -1778,13 +1784,13 @@ def derived_sequences(case, out, route, fresh, builder, op, x, mask):
                 return pick(made['o'].mv(xa))
 
             route(f'{p}/O1-derived-outside-applied-outside', o1)
-            if d in full:
+            if d in full and in_jit_ok:
                 fo = jax.jit(lambda v, derive=derive, adapt=adapt, pick=pick: pick(derive(ob).mv(adapt(v))))
                 route(f'{p}/O2-derived-in-jit-traced-outside', lambda: fo(x))
             with Config(**amb):
                 if 'o' in made:
                     route(f'{p}/O3-derived-outside-applied-inside', lambda: pick(made['o'].mv(xa)))
-                if d in full:
+                if d in full and in_jit_ok:
                     route(f'{p}/O4-derived-in-jit-called-inside', lambda: fo(x))
 
 
